@@ -1642,7 +1642,8 @@ func (pc *PeerConnection) startRTPReceivers(remoteDesc *SessionDescription, curr
 				Direction: RTPTransceiverDirectionSendrecv,
 			})
 			if err != nil {
-				pc.log.Warnf("Could not add transceiver for remote SSRC %d: %s", incomingTrack.ssrcs[0], err)
+				// a rid-only (simulcast) track has no SSRCs
+				pc.log.Warnf("Could not add transceiver for remote SSRCs %v: %s", incomingTrack.ssrcs, err)
 
 				continue
 			}
